@@ -364,7 +364,7 @@ Section Parts.
   Proof.
     intros lit path sp bs Hsp H. unfold fetch_section in H.
     destruct (root_sect_ok lit) as (R & _).
-    assert (Hgen : forall r m, part_of ctype_of lit (root_sect lit) path = Some r -> sect_ok (length lit) m ->
+    assert (Hgen : forall r m, sect_ok (length lit) r -> sect_ok (length lit) m ->
       match sp with
       | SpAll | SpBody => Some (sect_body lit r)
       | SpMime => Some (sect_header lit r)
@@ -372,24 +372,57 @@ Section Parts.
       | SpText => Some (sect_body lit m)
       | SpFields neg fields => header_fields neg (sect_header lit m) fields
       end = Some bs -> exists a b, a <= b /\ b <= length lit /\ bs = slice lit a b).
-    { intros r m Hr (E1 & E2 & E3) Hb. destruct (part_of_inside path lit _ r R Hr) as [(A1 & A2 & A3) _].
+    { intros r m (A1 & A2 & A3) (E1 & E2 & E3) Hb.
       destruct sp; try contradiction; inversion Hb; subst; unfold sect_body, sect_header;
         eexists _, _; (split; [|split; [|reflexivity]]); lia. }
     assert (Hemb : forall r, sect_ok (length lit) r -> sect_ok (length lit) (embedded ctype_of lit r)).
     { intros r (A1 & A2 & A3). unfold embedded. destruct (ctype_of (sect_header lit r)); try (unfold sect_ok; lia).
       destruct (parse_sect_ok lit (s_b r) (s_e r) A2 A3) as (_ & _ & P). exact P. }
     destruct path as [|n rest].
-    - destruct sp; try contradiction.
+    - destruct sp; try contradiction; cbn [part_of] in H.
       + assert (Hbs : lit = bs) by (inversion H; reflexivity). rewrite <- Hbs.
         exists 0, (length lit). split; [lia|]. split; [lia|]. symmetry. apply slice_full.
       + apply (Hgen (root_sect lit) (root_sect lit)); auto.
       + apply (Hgen (root_sect lit) (root_sect lit)); auto.
       + apply (Hgen (root_sect lit) (root_sect lit)); auto.
       + apply (Hgen (root_sect lit) (root_sect lit)); auto.
-    - destruct (part_of ctype_of lit (root_sect lit) (n :: rest)) as [r|] eqn:Er.
-      + destruct (part_of_inside (n :: rest) lit _ r R Er) as [Hr _].
-        apply (Hgen r (embedded ctype_of lit r)); auto.
-      + destruct sp; discriminate.
+    - (* the section the part path selects, whichever rule applies, is a section inside the message *)
+      assert (Htarget : forall r,
+        match ctype_of (sect_header lit (root_sect lit)), direct_children ctype_of (S (length lit)) lit (root_sect lit) with
+        | CtMessage, Some [] => if n =? 1 then part_of ctype_of lit (root_sect lit) rest else None
+        | _, _ => part_of ctype_of lit (root_sect lit) (n :: rest)
+        end = Some r -> sect_ok (length lit) r).
+      { intros r Hr.
+        destruct (ctype_of (sect_header lit (root_sect lit)));
+          try (destruct (part_of_inside (n :: rest) lit _ r R Hr) as [A _]; exact A).
+        destruct (direct_children ctype_of (S (length lit)) lit (root_sect lit)) as [[|c cs]|];
+          try (destruct (part_of_inside (n :: rest) lit _ r R Hr) as [A _]; exact A).
+        destruct (n =? 1); [|discriminate]. destruct (part_of_inside rest lit _ r R Hr) as [A _]. exact A. }
+      assert (Hsp' : match n :: rest, sp with [], SpAll => False | _, _ => True end) by exact I.
+      cbv zeta in H.
+      assert (Hred : match
+        match ctype_of (sect_header lit (root_sect lit)), direct_children ctype_of (S (length lit)) lit (root_sect lit) with
+        | CtMessage, Some [] => if n =? 1 then part_of ctype_of lit (root_sect lit) rest else None
+        | _, _ => part_of ctype_of lit (root_sect lit) (n :: rest)
+        end with
+        | None => None
+        | Some r =>
+          match sp with
+          | SpAll | SpBody => Some (sect_body lit r)
+          | SpMime => Some (sect_header lit r)
+          | SpHeader => Some (sect_header lit (embedded ctype_of lit r))
+          | SpText => Some (sect_body lit (embedded ctype_of lit r))
+          | SpFields neg fields => header_fields neg (sect_header lit (embedded ctype_of lit r)) fields
+          end
+        end = Some bs).
+      { destruct sp; exact H. }
+      clear H.
+      destruct (match ctype_of (sect_header lit (root_sect lit)), direct_children ctype_of (S (length lit)) lit (root_sect lit) with
+                | CtMessage, Some [] => if n =? 1 then part_of ctype_of lit (root_sect lit) rest else None
+                | _, _ => part_of ctype_of lit (root_sect lit) (n :: rest)
+                end) as [r|] eqn:Et; [|discriminate].
+      pose proof (Htarget r eq_refl) as Hr.
+      apply (Hgen r (embedded ctype_of lit r)); auto.
   Qed.
 
   (* BODY[HEADER] followed by BODY[TEXT] is BODY[], whatever the media type of the message itself is *)
@@ -401,5 +434,17 @@ Section Parts.
     exists (sect_header lit (root_sect lit)), (sect_body lit (root_sect lit)).
     repeat split; try reflexivity.
     rewrite (sect_header_plus_body lit _ R). unfold sect_literal. rewrite Rh, Re. apply slice_full.
+  Qed.
+
+  (* a message whose own type is message/rfc822 with a non-multipart embedded message: part 1 is its body
+     (BODY[1] = BODY[TEXT]), BODY[1.MIME] its own header, and there is no part 2 *)
+  Lemma message_root_part1 : forall lit,
+    ctype_of (sect_header lit (root_sect lit)) = CtMessage ->
+    direct_children ctype_of (S (length lit)) lit (root_sect lit) = Some [] ->
+    fetch_section ctype_of lit [1] SpBody = fetch_section ctype_of lit [] SpText /\
+    fetch_section ctype_of lit [1] SpMime = Some (sect_header lit (root_sect lit)) /\
+    fetch_section ctype_of lit [2] SpBody = None.
+  Proof.
+    intros lit Hc Hd. unfold fetch_section. cbv zeta. rewrite Hc, Hd. cbn [Nat.eqb part_of]. auto.
   Qed.
 End Parts.
